@@ -44,7 +44,14 @@ static void block_case(const Pattern &p, int bs) { hx::CaseOptions coo; coo.max_
     bool e1=false, eb=false; std::shared_ptr<co::pointwise_aggregates> a1, ab; try { a1=std::make_shared<co::pointwise_aggregates>(*Am,p1,1); } catch (const amgcl::error::empty_level&) { e1=true; } try { ab=std::make_shared<co::pointwise_aggregates>(*Km,pb,1); } catch (const amgcl::error::empty_level&) { eb=true; }
     hx::require("block coarsening is empty exactly when the scalar coarsening is empty", e1==eb); if (e1||eb) return;
     bool lift = ab->count==a1->count*bs; std::string bad; for (int i=0;i<p.n;++i) for (int r=0;r<bs;++r) { ptrdiff_t want = a1->id[i]<0 ? a1->id[i] : a1->id[i]*bs+r; ptrdiff_t got=ab->id[i*bs+r]; bool same = a1->id[i]<0 ? got<0 : got==want; if (!same) { lift=false; if (bad.empty()) bad="node "+std::to_string(i)+" component "+std::to_string(r)+": id "+std::to_string(got)+" expected "+std::to_string(want); } }
-    hx::require("coarsening A (x) I_b with block_size b = lifted coarsening of A (the unknowns of a node travel together)", lift, bad); },coo); }
+    hx::require("coarsening A (x) I_b with block_size b = lifted coarsening of A (the unknowns of a node travel together)", lift, bad);
+    // the strength flags travel too: entry (i*b+r, j*b+r) of A (x) I_b is strong exactly when (i,j) is strong in A (they decide the filtered matrix of smoothed aggregation)
+    { bool sl=true; std::string w; for (int i=0;i<p.n;++i) for (ptrdiff_t k=p.ptr[i];k<p.ptr[i+1];++k) for (int r=0;r<bs;++r) { ptrdiff_t kb=K.ptr[i*bs+r]+(k-p.ptr[i]); bool s1=a1->strong_connection[k], sb=ab->strong_connection[kb]; if (s1!=sb) { sl=false; if (w.empty()) w="entry ("+std::to_string(i*bs+r)+","+std::to_string(K.col[kb])+") strong="+std::to_string(sb)+", scalar entry ("+std::to_string(i)+","+std::to_string(p.col[k])+") strong="+std::to_string(s1); } }
+      hx::require("strength flags of A (x) I_b with block_size b = lifted strength flags of A", sl, w); }
+    // smoothed aggregation: P(A (x) I_b, block_size b) = P(A) (x) I_b
+    { co::smoothed_aggregation<BE>::params q1, qb; qb.aggr.block_size=bs; co::smoothed_aggregation<BE> c1(q1), cb(qb); std::shared_ptr<M> P1, R1, Pb, Rb; bool x1=false, xb=false; try { std::tie(P1,R1)=c1.transfer_operators(*Am); } catch (const amgcl::error::empty_level&) { x1=true; } try { std::tie(Pb,Rb)=cb.transfer_operators(*Km); } catch (const amgcl::error::empty_level&) { xb=true; }
+      if (!x1 && !xb) { hx::require("smoothed aggregation on A (x) I_b: coarse size = b * scalar coarse size", Pb->ncols==P1->ncols*(size_t)bs); if (Pb->ncols==P1->ncols*(size_t)bs) { std::vector<scalar> got, ref; for (int i=0;i<p.n;++i) for (int r=0;r<bs;++r) { std::vector<scalar> g(Pb->ncols,scalar(0)), e(Pb->ncols,scalar(0)); for (ptrdiff_t k=Pb->ptr[i*bs+r];k<Pb->ptr[i*bs+r+1];++k) g[Pb->col[k]]=g[Pb->col[k]]+Pb->val[k]; for (ptrdiff_t k=P1->ptr[i];k<P1->ptr[i+1];++k) e[P1->col[k]*bs+r]=e[P1->col[k]*bs+r]+P1->val[k]; for (size_t c=0;c<g.size();++c) { got.push_back(g[c]); ref.push_back(e[c]); } }
+        hx::prove_eq_vec("smoothed aggregation on A (x) I_b with block_size b = lifted prolongation P(A) (x) I_b", got, ref); } } } },coo); }
 
 static void sa_case(const Pattern &p, bool zero_rowsum, bool estimate_rho) { hx::CaseOptions coo; coo.max_paths=48; coo.max_depth=140; hx::run_case(std::string("smoothed_aggregation/")+(zero_rowsum?"zrs/":"gen/")+(estimate_rho?"rho/":"fixed/")+p.name, [&]() {
     SCrs A=sym_matrix(p,zero_rowsum,true); if (zero_rowsum) for (auto &v : A.val) hx::assume(hx::ne(v,scalar(0))); auto Am=hx::to_amgcl(A); int n=p.n; typedef co::smoothed_aggregation<BE> SA; SA::params prm; prm.relax=1.0f; prm.estimate_spectral_radius=estimate_rho; if (estimate_rho) for (int i=0;i<n;++i) hx::assume(hx::ne(A.at(i,i),scalar(0)));
